@@ -17,7 +17,7 @@
      F6  two-entry maps whose keys are one-element lists / one-entry maps over all atoms paired with
          the same container of exact zero (nested ties and nested sort keys)                      *)
 EXTENDS Repr, TLC, Json
-CONSTANT Fam,      \* which family this TLC process enumerates (the executor runs them in parallel)
+CONSTANT Fams,     \* the families this TLC process enumerates (the executor runs several processes)
          Wide      \* TRUE (thorough): F1, F2, F4 are full products; FALSE (quick): one side from Small
 VARIABLE v
 
@@ -48,7 +48,8 @@ F5 == {Map({<<a, X>>, <<b, Y>>, <<c, Nil>>}) : <<a, b, c>> \in {t \in K5 \X K5 \
 F6 == {Map({<<List(<<a>>), X>>, <<List(<<Num("i:0")>>), Y>>}) : a \in {b \in Atoms : ~RT(b, Num("i:0"))}}
       \cup {Map({<<Map({<<a, X>>}), X>>, <<Map({<<Num("i:0"), X>>}), Y>>}) : a \in {b \in Atoms : ~RT(b, Num("i:0"))}}
 
-Values == CASE Fam = 0 -> F0 \cup F1 [] Fam = 2 -> F2 [] Fam = 3 -> F3 [] Fam = 4 -> F4 [] Fam = 5 -> F5 [] Fam = 6 -> F6
+FamSet(f) == CASE f = 0 -> F0 [] f = 1 -> F1 [] f = 2 -> F2 [] f = 3 -> F3 [] f = 4 -> F4 [] f = 5 -> F5 [] f = 6 -> F6
+Values == UNION {FamSet(f) : f \in Fams}
 
 Init == v \in Values
 Next == UNCHANGED v
